@@ -13,7 +13,7 @@ What a run does
   kernels    hand models with checked access (SkNet/Model/Kernels*.lean) against the real kernels: run lines (exact)
              and spec lines.
   workers    every public algorithm with default (and boundary) parameters on a degenerate input stream, in supervised
-             worker processes with a wall-clock limit: a hang or a crash of the interpreter is a concrete failing input.
+             worker processes with a CPU-time limit: a hang or a crash of the interpreter is a concrete failing input.
              Same stream on the bounds-checked build (boundscheck on, -D_GLIBCXX_ASSERTIONS): an IndexError raised by
              the bounds check, or an abort, is a concrete failing input.
 """
@@ -36,9 +36,13 @@ from vlib.core import ToolFailure, VERIF, CACHE, LEAN_DIR, enc_list
 
 RULE = ('kinds: one obligation per translated kernel (19 kernels of the 12 .pyx files); contract: every kernel call observed '
         'in the stream; workers: public algorithms x degenerate graphs (empty, one edge, self-loops, isolated nodes, sinks, '
-        'directed cycles, several components, nnz < n, bool/int/explicit-zero data, unsorted indices, rectangular) and '
-        'structured random graphs n <= 12, seeds with labels >= n and oscillating configurations; a case is non-trivial '
-        'when the graph has at least one stored entry; distinct = distinct (algorithm, parameters, graph, build flavour)')
+        'directed cycles, several components, nnz < n, bool/int/explicit-zero data, unsorted indices, rectangular), '
+        'structured random graphs n <= 12, seeds with labels >= n and oscillating configurations, tolerance-0 streams of the '
+        'modularity estimators, a middle range (random graphs with 13..100 nodes, disjoint directed cycles with long sweep '
+        'periods, transitive tournaments); scaling probe: CPU time of every stream algorithm on sparse graphs of 500 .. 32 000 '
+        '(quick) / 128 000 (thorough) nodes, growth ratio for a factor 4 in size against the declared class of the algorithm; '
+        'a case is non-trivial when the graph has at least one stored entry; distinct = distinct (algorithm, parameters, '
+        'graph, build flavour)')
 ASSUMPTIONS = [
     'translator tools/translate/kernels.py: Cython parser front end + our lowering to the kernel IR (floats, container '
     'orders, numpy calls and Python objects are an arbitrary oracle of the IR semantics; calls between kernels are checked '
@@ -47,8 +51,9 @@ ASSUMPTIONS = [
     'real arguments by the contract lines for the kernels entered from Python',
     'prange loops are interpreted sequentially (schedules are the business of C16)',
     'compiled object code: exercised (plain and bounds-checked builds), not verified',
-    'wall-clock limit: a task on a graph with n <= 12 nodes that runs longer than the limit (confirmed once alone with '
-    'twice the limit) is a hang',
+    'time limit in CPU seconds of the worker (6 s quick / 20 s thorough per task on graphs with at most 100 nodes, 60 s in the '
+    'scaling probe): a task that uses more (confirmed once alone with twice the limit) is a hang; a worker that cannot '
+    'use its allowance within 6 x the limit of wall clock makes the run a tool failure, not a verdict',
 ]
 LEAN_MODULES = ['SkNet.Properties.C17']
 DRIVE_MODULES = ['SkNet.Drive.C17']
@@ -322,10 +327,14 @@ def kind_obligations(ctx):
 # ================================================================================================
 # supervised workers
 # ================================================================================================
+WALL_FACTOR = 6
+
+
 class Worker:
-    def __init__(self, root, tag, monitor=False):
+    def __init__(self, root, tag, monitor=False, threads=2):
         self.root = root
         self.monitor = monitor
+        self.threads = threads
         self.errpath = os.path.join(C17_CACHE, 'w_%d_%s.err' % (os.getpid(), tag))
         self.proc = None
         self.buf = b''
@@ -334,7 +343,10 @@ class Worker:
         self.stop()
         env = dict(os.environ)
         env.pop('PYTHONPATH', None)
-        env['OMP_NUM_THREADS'] = '2'
+        # 2 threads in the stream (prange kernels run in parallel); 1 in the scaling probe (CPU time of a growth
+        # measurement must not contain the spinning of idle BLAS / OpenMP threads on a loaded machine)
+        for v in ('OMP_NUM_THREADS', 'OPENBLAS_NUM_THREADS', 'MKL_NUM_THREADS'):
+            env[v] = str(self.threads)
         env['PYTHONFAULTHANDLER'] = '1'
         self.err = open(self.errpath, 'wb')
         cmd = [overlay.PY, '-u', WORKER, self.root] + (['monitor'] if self.monitor else [])
@@ -362,6 +374,9 @@ class Worker:
         return json.loads(line.decode())
 
     def run(self, task, limit):
+        """`limit` is in CPU seconds of the worker process (user + system, all threads): the verdict does not depend
+        on the load of the machine (review 2, M2).  A worker that has not used its CPU allowance after
+        WALL_FACTOR x limit seconds of wall clock was starved (or blocked): status 'starved', a tool failure."""
         if self.proc is None or self.proc.poll() is not None:
             self.start()
         try:
@@ -372,11 +387,20 @@ class Worker:
             self.proc.stdin.write((json.dumps(task) + '\n').encode())
             self.proc.stdin.flush()
         c0 = self._cpu()
-        r = self._read(limit)
-        if r == 'timeout':
+        w0 = time.time()
+        while True:
+            r = self._read(0.25)
+            if r != 'timeout':
+                break
             used = self._cpu() - c0
-            self.stop()
-            return {'id': task['id'], 'status': 'timeout', 'limit': limit, 'cpu_used_s': round(used, 2)}
+            if used >= limit:
+                self.stop()
+                return {'id': task['id'], 'status': 'timeout', 'limit': limit, 'cpu_used_s': round(used, 2),
+                        'wall_s': round(time.time() - w0, 1)}
+            if time.time() - w0 >= WALL_FACTOR * limit:
+                self.stop()
+                return {'id': task['id'], 'status': 'starved', 'limit': limit, 'cpu_used_s': round(used, 2),
+                        'wall_s': round(time.time() - w0, 1)}
         if r is None:
             rc = self.proc.wait()
             tail = self.err_tail()
@@ -421,15 +445,36 @@ class Worker:
             pass
 
 
-def run_pool(root, tasks, limit, nworkers, monitor=False, tag='p', max_timeouts_per_algo=2):
-    """Run tasks in supervised workers. Returns {id: answer}. Timeouts and crashes are confirmed alone in a fresh
-    worker (timeouts with twice the limit) before they are reported."""
+FAIL_BUDGET = 2     # reports (with confirmation runs) per (algorithm, kind of failure) and pool
+
+
+def run_pool(root, tasks, limit, nworkers, monitor=False, tag='p', known=None, checked_root=None):
+    """Run tasks in supervised workers. Returns {id: answer}.  `limit`: CPU seconds per task.
+    * a timeout or a crash is confirmed alone in a fresh worker (timeouts with twice the limit) before it is reported;
+    * a crash that is not reproduced at once is tried in four more fresh processes, then once on the bounds-checked
+      build (`checked_root`, a callable) — what remains unexplained is kept in the answer (`first_attempt`, `first_stderr`)
+      and reported as a note by `judge`, never dropped (review 2, M1);
+    * every task is run: after FAIL_BUDGET reports of one kind for one algorithm, further failures of that same kind are
+      only counted (`similar`), without confirmation runs — other kinds of failure of that algorithm are still reported
+      (review 2, M3);  failures that match a recorded known finding (`known(task, kind)`) are neither confirmed nor charged."""
     q = _queue.Queue()
     for t in tasks:
         q.put(t)
     results = {}
     lock = threading.Lock()
-    timeouts = {}
+    charged = {}
+    known = known or (lambda t, kind: False)
+
+    def exhausted(t, kind):
+        with lock:
+            return charged.get((t['algo'], kind), 0) >= FAIL_BUDGET
+
+    def fresh(k, suffix, t, lim, r_root=None, mon=None):
+        w2 = Worker(r_root or root, '%s%d%s' % (tag, k, suffix), monitor if mon is None else mon)
+        try:
+            return w2.run(t, lim)
+        finally:
+            w2.stop()
 
     def loop(k):
         w = Worker(root, '%s%d' % (tag, k), monitor)
@@ -439,51 +484,61 @@ def run_pool(root, tasks, limit, nworkers, monitor=False, tag='p', max_timeouts_
                     t = q.get_nowait()
                 except _queue.Empty:
                     break
-                with lock:
-                    if timeouts.get(t['algo'], 0) >= max_timeouts_per_algo:
-                        results[t['id']] = {'id': t['id'], 'status': 'skipped', 'why': 'earlier failures of this algorithm'}
-                        continue
                 r = w.run(t, limit)
-                if r['status'] in ('timeout', 'crash'):
-                    # confirm alone, fresh process
-                    w2 = Worker(root, '%s%dc' % (tag, k), monitor)
-                    try:
-                        r2 = w2.run(t, 2 * limit)
-                    finally:
-                        w2.stop()
-                    if r2['status'] == r['status']:
-                        r = r2
+                st = r['status']
+                if st in ('timeout', 'crash'):
+                    if known(t, st):
                         r['confirmed'] = True
-                    elif r2['status'] in ('timeout', 'crash'):
-                        r = r2
-                        r['confirmed'] = True
-                    elif r['status'] == 'crash':
-                        # not reproduced at once: heap corruption after an out-of-bounds write is not deterministic;
-                        # four more fresh processes before the crash is dropped
-                        deaths = 1
-                        for _ in range(4):
-                            w3 = Worker(root, '%s%df' % (tag, k), monitor)
-                            try:
-                                r3 = w3.run(t, 2 * limit)
-                            finally:
-                                w3.stop()
-                            if r3['status'] == 'crash':
-                                deaths += 1
-                                last = r3
-                        if deaths >= 2:
-                            r = last
-                            r['confirmed'] = True
-                            r['flaky'] = '%d of 6 runs died' % deaths
-                        else:
-                            r2['first_attempt'] = r['status']
-                            r = r2
+                        r['known'] = True
+                    elif exhausted(t, st):
+                        r['similar'] = True
                     else:
-                        r2['first_attempt'] = r['status']
-                        r = r2
-                if r['status'] in ('timeout', 'crash') or r.get('oob'):
-                    # a concrete failing input of this algorithm is in hand: two are enough for one run
-                    with lock:
-                        timeouts[t['algo']] = timeouts.get(t['algo'], 0) + 1
+                        r2 = fresh(k, 'c', t, 2 * limit)
+                        if r2['status'] in ('timeout', 'crash'):
+                            r = r2
+                            r['confirmed'] = True
+                        elif r2['status'] == 'starved':
+                            r = r2
+                        elif st == 'crash':
+                            # not reproduced at once: heap corruption after an out-of-bounds write is not deterministic;
+                            # four more fresh processes, then the bounds-checked build, before the crash becomes a note
+                            deaths, last = 1, None
+                            for _ in range(4):
+                                r3 = fresh(k, 'f', t, 2 * limit)
+                                if r3['status'] == 'crash':
+                                    deaths += 1
+                                    last = r3
+                            if deaths >= 2:
+                                last['confirmed'] = True
+                                last['flaky'] = '%d of 6 runs died' % deaths
+                                r = last
+                            else:
+                                r2['first_attempt'] = 'crash'
+                                r2['first_stderr'] = (r.get('stderr') or '')[:400]
+                                r2['first_rc'] = r.get('rc')
+                                croot = checked_root() if (checked_root is not None and t.get('flavour') != 'checked') else None
+                                if croot:
+                                    r4 = fresh(k, 'k', dict(t, flavour='checked'), 2 * limit, r_root=croot, mon=False)
+                                    r2['checked_rerun'] = r4.get('status') + (':oob' if r4.get('oob') else '')
+                                    if r4.get('status') == 'crash' or r4.get('oob'):
+                                        r4['confirmed'] = True
+                                        r4['on_checked_build'] = True
+                                        r4['first_stderr'] = r2['first_stderr']
+                                        r2 = r4
+                                r = r2
+                        else:
+                            r2['first_attempt'] = 'timeout'
+                            r2['first_cpu_s'] = r.get('cpu_used_s')
+                            r = r2
+                kind = r['status'] if r['status'] in ('timeout', 'crash') else ('oob' if r.get('oob') else None)
+                if kind is not None and not r.get('known') and not r.get('similar'):
+                    if kind == 'oob' and known(t, 'oob'):
+                        r['known'] = True
+                    elif kind == 'oob' and exhausted(t, 'oob'):
+                        r['similar'] = True
+                    else:
+                        with lock:
+                            charged[(t['algo'], kind)] = charged.get((t['algo'], kind), 0) + 1
                 with lock:
                     results[t['id']] = r
         finally:
@@ -508,6 +563,10 @@ def gdict(name, a, dtype='float'):
 
 
 def graph_props(g):
+    if g.get('gen'):
+        n = g['n']
+        return {'n': n, 'nnz': 2 * n, 'directed': g['gen'] != 'ring_chords', 'square': True, 'nnz_lt_n': False,
+                'max_index_ge_nnz': False, 'loops': False}
     n, m = g['n'], g['m']
     nnz = len(g['indices'])
     ent = set()
@@ -521,7 +580,13 @@ def graph_props(g):
 
 
 def _csr(n, es, w=None, m=None):
-    return graphs.csr_from_edges(n, sorted(set(es)), None if w is None else w, m=m)
+    if w is None:
+        return graphs.csr_from_edges(n, sorted(set(es)), None, m=m)
+    d = {}
+    for e, x in zip(es, w):         # the weight stays with its edge when the list is sorted
+        d.setdefault(e, x)
+    ks = sorted(d)
+    return graphs.csr_from_edges(n, ks, [d[k] for k in ks], m=m)
 
 
 def degenerate_graphs(rng):
@@ -590,7 +655,7 @@ def random_graphs(rng, count):
 ALGOS_SQUARE_ONLY = {'Betweenness', 'Closeness', 'get_core_decomposition', 'count_triangles', 'count_triangles_parallel',
                      'get_clustering_coefficient', 'count_cliques', 'count_cliques4', 'count_cliques2',
                      'color_weisfeiler_lehman', 'are_isomorphic', 'is_acyclic', 'get_cycles', 'break_cycles',
-                     'breadth_first_search', 'get_dag', 'Spring', 'ForceAtlas', 'GNNClassifier', 'Katz'}
+                     'breadth_first_search', 'get_dag', 'get_dag_index', 'Spring', 'ForceAtlas', 'GNNClassifier', 'Katz'}
 ALL_ALGOS = ['Louvain', 'Leiden', 'PropagationClustering', 'KCenters', 'Paris', 'LouvainHierarchy', 'LouvainIteration',
              'PageRank', 'Katz', 'HITS', 'Closeness', 'Betweenness', 'Propagation', 'DiffusionClassifier',
              'PageRankClassifier', 'NNClassifier', 'Diffusion', 'Dirichlet', 'Spectral', 'SVD', 'GSVD', 'PCA',
@@ -598,7 +663,7 @@ ALL_ALGOS = ['Louvain', 'Leiden', 'PropagationClustering', 'KCenters', 'Paris', 
              'get_core_decomposition', 'count_triangles', 'count_triangles_parallel', 'get_clustering_coefficient',
              'count_cliques', 'count_cliques4', 'count_cliques2', 'color_weisfeiler_lehman', 'are_isomorphic',
              'get_connected_components', 'get_largest_connected_component', 'is_bipartite', 'is_acyclic', 'get_cycles',
-             'break_cycles', 'get_distances', 'get_shortest_path', 'breadth_first_search', 'get_dag']
+             'break_cycles', 'get_distances', 'get_shortest_path', 'breadth_first_search', 'get_dag', 'get_dag_index']
 # algorithms that run compiled kernels: always on every degenerate graph
 KERNEL_ALGOS = ['Louvain', 'Leiden', 'PropagationClustering', 'Paris', 'LouvainHierarchy', 'LouvainIteration', 'Propagation',
                 'Betweenness', 'get_core_decomposition', 'count_triangles', 'count_triangles_parallel', 'count_cliques',
@@ -652,7 +717,7 @@ def build_tasks(ctx, flavour, quick):
 
     def add(algo, g, extra=None):
         # rectangular inputs go to every algorithm: those that need a square matrix must refuse it with an exception
-        if algo == 'get_cycles' and g['n'] > 7:
+        if algo == 'get_cycles' and g['n'] > 7 and not g['name'].startswith('tournament'):
             return      # the number of simple cycles (the output) is exponential in dense graphs: not a hang
         t = {'id': len(tasks), 'algo': algo, 'graph': g, 'extra': extra or {}, 'flavour': flavour}
         tasks.append(t)
@@ -678,7 +743,7 @@ def build_tasks(ctx, flavour, quick):
                     if c is not None:
                         ex['labels'] = c
                 add(algo, g, ex)
-    for algo, g, ex in boundary_cases(rng, quick):
+    for algo, g, ex in boundary_cases(rng, quick) + midrange_cases(rng, quick):
         add(algo, g, ex)
     rng.shuffle(tasks)
     for i, t in enumerate(tasks):
@@ -722,15 +787,19 @@ def boundary_cases(rng, quick):
         if rng.random() < 0.5:
             params['resolution'] = 0
         out.append((algo, gdict('tol0_%s%d' % ('w', n), a), {'params': params}))
-    # the outer loop of Leiden with tolerance 0 of the aggregation (small weighted / bipartite / directed inputs,
-    # several random states: float32 noise as 'increase' with a refinement that merges nothing must not loop for ever)
-    # (measured on the tree before the repair F25: about one hang in 1000 such cases, 5 ms per case)
+    # the outer loops with tolerance 0 of the aggregation (small weighted / bipartite / directed inputs, several random
+    # states: float32 noise reported as 'increase' by a round that merges nothing must not keep the loop alive);
+    # measured on the tree before the repair F25: about one hang of Leiden in 1000 such cases, 5 ms per case.
+    # Leiden in 5 cases of 8, the estimators built on Louvain.fit in the others (review 2, H4)
+    agg0 = ['Leiden', 'Louvain', 'Leiden', 'LouvainHierarchy', 'Leiden', 'LouvainEmbedding', 'Leiden', 'LouvainIteration']
     for c in range(1500 if quick else 8000):
+        algo = agg0[c % 8] if c % 16 != 15 else 'Leiden'
         n = rng.randint(6, 14)
         kind = c % 3
-        if kind == 0:       # weighted undirected
+        if kind == 0:       # weighted: undirected, or symmetric pattern with one weight per arc (a directed input)
             es = graphs.random_edges(rng, n, rng.choice([0.3, 0.5, 0.7]), directed=False)
-            a = _csr(n, es, graphs.sym_weights(rng, es, [0.25, 0.5, 1, 1.5, 2, 3]))
+            ws = [0.25, 0.5, 1, 1.5, 2, 3]
+            a = _csr(n, es, graphs.sym_weights(rng, es, ws) if c % 2 else [rng.choice(ws) for _ in es])
             ex = {}
         elif kind == 1:     # directed, boolean
             es = graphs.random_edges(rng, n, rng.choice([0.5, 0.7, 0.8]), directed=True)
@@ -740,11 +809,14 @@ def boundary_cases(rng, quick):
             es = graphs.random_edges(rng, n, rng.choice([0.25, 0.35]), directed=True, loops=True)
             a = _csr(n, es, [rng.choice([0.25, 0.5, 1, 1.5, 2, 3]) for _ in es])
             ex = {'force_bipartite': True}
-        params = {'tol_aggregation': 0, 'random_state': rng.randrange(10 ** 6),
-                  'modularity': rng.choice(['dugue', 'newman', 'potts', 'potts']), 'resolution': rng.choice([0.5, 1, 2, 2])}
+        params = {'tol_aggregation': 0, 'random_state': rng.randrange(10 ** 6), 'resolution': rng.choice([0.5, 1, 2, 2])}
+        if algo in ('Leiden', 'Louvain'):
+            params['modularity'] = rng.choice(['dugue', 'newman', 'potts', 'potts'])
+        if algo != 'Leiden':
+            params['shuffle_nodes'] = rng.random() < 0.5
         if rng.random() < 0.15:
             params['tol_optimization'] = 0
-        out.append(('Leiden', gdict('leiden_agg0_%d' % n, a, 'bool' if kind == 1 else 'float'), dict(ex, params=params)))
+        out.append((algo, gdict('%s_agg0_%d' % (algo.lower(), n), a, 'bool' if kind == 1 else 'float'), dict(ex, params=params)))
     rect = gdict('rect_3x4b', _csr(3, [(0, 0), (0, 1), (1, 1), (2, 3), (2, 2)], m=4))
     sq = gdict('path5b', _csr(5, graphs.structured(rng, 'path', 5)))
     for algo in ('Propagation', 'DiffusionClassifier', 'PageRankClassifier', 'NNClassifier'):
@@ -754,7 +826,9 @@ def boundary_cases(rng, quick):
         out.append((algo, sq, {'labels_vec': [-1, 0, -1, 1, -1]}))
         out.append((algo, sq, {'labels_vec': [-1, -1, -1, -1, -1]}))
         out.append((algo, sq, {'labels_vec': [3, 3, 3, 3, 3]}))
-    for algo in ('Louvain', 'Leiden', 'Paris', 'PageRank', 'LouvainHierarchy', 'HITS', 'Spectral', 'SVD', 'KCenters'):
+    # (only estimators whose fit takes force_bipartite: HITS and SVD do not — review 2, L1)
+    for algo in ('Louvain', 'Leiden', 'Paris', 'PageRank', 'LouvainHierarchy', 'LouvainIteration', 'LouvainEmbedding',
+                 'Spectral', 'KCenters'):
         out.append((algo, sq, {'force_bipartite': True}))
         out.append((algo, rect, {'force_bipartite': True}))
     path3 = gdict('path3', _csr(3, [(0, 1), (1, 0), (1, 2), (2, 1)]))
@@ -767,6 +841,99 @@ def boundary_cases(rng, quick):
     return out
 
 
+def known_oracle():
+    """(task, kind) -> does the signature match a recorded *known* finding of C17?"""
+    if 'findings' not in _STATE:
+        _STATE['findings'] = core.load_findings()
+    return lambda t, kind: core.match_finding(_STATE['findings'], 'C17', task_sig(t, kind)) is not None
+
+
+def checked_root_or_none():
+    """the bounds-checked overlay when it is built already (callable handed to run_pool)"""
+    if 'checked_root' not in _STATE:
+        try:
+            _STATE['checked_root'] = overlay.sync('checked')[0] if checked_is_cheap() else None
+        except Exception:
+            _STATE['checked_root'] = None
+    return _STATE['checked_root']
+
+
+PRIME_CYCLES = (3, 4, 6, 8, 12, 14, 18, 20)      # lengths c with c - 1 prime: sweep period lcm(c_i - 1)
+
+
+def disjoint_dicycles(lengths):
+    es, off = [], 0
+    for c in lengths:
+        es += [(off + i, off + (i + 1) % c) for i in range(c)]
+        off += c
+    return off, es
+
+
+def tournament(n, back):
+    """the transitive tournament i -> j (i < j): n(n-1)/2 arcs, 2^(n-2) simple paths from 0 to n-1; with the arc n-1 -> 0
+    the whole graph is one strong component"""
+    return [(i, j) for i in range(n) for j in range(i + 1, n)] + ([(n - 1, 0)] if back else [])
+
+
+def midrange_cases(rng, quick):
+    """Between the toy stream (n <= 12) and the scaling probe (review 2, H1 / H2 / improvement 2):
+    * disjoint directed cycles of lengths c_i with c_i - 1 prime, 20..85 nodes: the asynchronous sweep of Propagation has
+      period lcm(c_i - 1) there — the number of sweeps must stay proportionate to the input all the same;
+    * transitive tournaments on 16..24 nodes, with and without the back arc n-1 -> 0, for the cycle functions (polynomial
+      output, exponentially many simple paths);
+    * random graphs with 13..100 nodes (sparse directed / undirected, a denser weighted one) for every algorithm."""
+    out = []
+    for c in range(6 if quick else 40):
+        if c == 0:
+            lengths = [3, 4, 6, 8, 12, 14, 18]          # 65 nodes, period 510 510
+        else:
+            lengths = []
+            for x in rng.sample(PRIME_CYCLES, len(PRIME_CYCLES)):
+                if sum(lengths) + x <= 85 and rng.random() < 0.8:
+                    lengths.append(x)
+            if sum(lengths) < 20:
+                lengths = [3, 4, 6, 8]
+            lengths.sort()
+        n, es = disjoint_dicycles(lengths)
+        g = gdict('dicycles_' + '_'.join(map(str, lengths)), _csr(n, es))
+        out.append(('Propagation', g, {}))
+        out.append(('Propagation', g, {'labels': {'0': 0}}))
+        if c % 3 == 0:
+            out.append(('PropagationClustering', g, {}))
+            out.append(('Propagation', g, {'params': {'node_order': 'decreasing'}}))
+    for n in ((16, 24) if quick else (16, 20, 24)):
+        for back in (True, False):
+            g = gdict('tournament%d%s' % (n, '_back' if back else ''), _csr(n, tournament(n, back)))
+            for algo in ('break_cycles', 'is_acyclic', 'get_distances', 'get_dag', 'get_connected_components'):
+                if algo == 'break_cycles' and back and n > 16:
+                    continue    # known finding F27 (2^n simple paths): its witness tournament22_back is in the corpus
+                out.append((algo, g, {}))
+            if not back:
+                out.append(('get_cycles', g, {}))        # no cycle at all: the output is empty
+    for c in range(3 if quick else 16):
+        n = rng.randint(13, 100)
+        kind = c % 3
+        if kind == 0:
+            es = graphs.random_edges(rng, n, rng.choice([2, 3, 5]) / n, directed=False)
+            a, name = _csr(n, es), 'mid_und%d' % n
+        elif kind == 1:
+            es = graphs.random_edges(rng, n, rng.choice([2, 4, 8]) / n, directed=True, loops=rng.random() < 0.3)
+            a, name = _csr(n, es), 'mid_dir%d' % n
+        else:
+            n = min(n, 40)
+            es = graphs.random_edges(rng, n, 0.3, directed=False)
+            a, name = _csr(n, es, graphs.sym_weights(rng, es, [0.5, 1, 2, 3])), 'mid_dense%d' % n
+        g = gdict(name, a)
+        for algo in ALL_ALGOS:
+            if algo == 'get_cycles':
+                continue        # the number of simple cycles (its output) is exponential here
+            if algo == 'break_cycles' and kind != 0:
+                continue        # known finding F27 (directed, or dense undirected: simple paths are enumerated);
+                                # witnesses in the corpus; the sparse undirected graphs are run
+            out.append((algo, g, {}))
+    return out
+
+
 def task_sig(t, kind):
     p = graph_props(t['graph'])
     lab = (t.get('extra') or {}).get('labels')
@@ -775,7 +942,10 @@ def task_sig(t, kind):
     sig = {'entry': t['algo'], 'kind': kind, 'directed': p['directed'], 'max_index_ge_nnz': p['max_index_ge_nnz'],
            'labels_ge_n': labels_ge_n, 'tol_optimization_zero': params.get('tol_optimization', 1) == 0,
            'label_ge_1e8': bool(lab) and any(int(v) >= 10 ** 8 for v in lab.values()),
-           'tol_aggregation_zero': params.get('tol_aggregation', 1) == 0}
+           'tol_aggregation_zero': params.get('tol_aggregation', 1) == 0,
+           'solver': params.get('solver'), 'n_ge_16': p['n'] >= 16}
+    if kind == 'scaling':
+        sig['family'] = t['graph'].get('gen')
     return sig
 
 
@@ -788,34 +958,36 @@ def judge(ctx, tasks, results, flavour):
             raise ToolFailure('no answer for task %r' % t['id'])
         st = r['status']
         p = graph_props(t['graph'])
-        key = (flavour, t['algo'], json.dumps(t['extra'], sort_keys=True), t['graph']['name'], tuple(t['graph']['indices']),
-               tuple(t['graph']['indptr']))
+        key = (flavour, t['algo'], json.dumps(t['extra'], sort_keys=True), t['graph']['name'], tuple(t['graph'].get('indices') or [t['graph'].get('seed')]),
+               tuple(t['graph'].get('indptr') or [t['graph']['n']]))
         kind = None
-        if st == 'skipped':
-            ctx.count('%s:skipped-after-failures' % flavour)
-            continue
         ctx.case(key, p['nnz'] > 0, sample={'request': '%s %s on %s (%s build)' % (t['algo'], t['extra'], t['graph']['name'], flavour),
                                             'model': 'returns or raises within the limit; no bounds violation',
                                             'impl': {k: r.get(k) for k in ('status', 'exc', 'wall', 'out')}})
         ctx.count('%s:%s' % (flavour, st if st != 'exc' else 'raises:' + str(r.get('exc'))))
         ctx.count('entry:' + t['algo'])
+        if r.get('similar'):
+            # more failures of a kind already reported twice for this algorithm in this pool: counted, not reported
+            ctx.count('%s:similar-%s' % (flavour, 'oob' if r.get('oob') and st not in ('timeout', 'crash') else st))
+            continue
         if st == 'timeout':
-            # the verdict is on CPU time: a worker that was starved by the rest of the machine did not hang (review L3)
-            if r.get('cpu_used_s', r.get('limit', 0)) >= 0.25 * r.get('limit', 0):
-                kind = 'timeout'
-            else:
-                ctx.count('%s:timeout-starved' % flavour)
-                _STATE.setdefault('starved', []).append('%s on %s: %.1f s of CPU in %d s' % (
-                    t['algo'], t['graph']['name'], r.get('cpu_used_s', 0), r.get('limit', 0)))
+            kind = 'timeout'        # the limit is CPU time: independent of the load of the machine (review 2, M2)
+        elif st == 'starved':
+            ctx.count('%s:starved' % flavour)
+            _STATE.setdefault('starved', []).append('%s on %s: %.1f s of CPU in %.0f s of wall clock (limit %s s CPU)' % (
+                t['algo'], t['graph']['name'], r.get('cpu_used_s', 0), r.get('wall_s', 0), r.get('limit')))
         elif st == 'crash':
-            if r.get('confirmed'):
-                kind = 'crash'
-            else:
-                ctx.note('unconfirmed crash of a worker (not reproduced alone): %s on %s' % (t['algo'], t['graph']['name']))
+            kind = 'crash'          # run_pool only leaves confirmed crashes with this status
         elif r.get('oob'):
             kind = 'oob'
-        elif r.get('first_attempt'):
-            ctx.count('%s:slow-or-flaky-first-attempt' % flavour)
+        if r.get('first_attempt') == 'crash' and kind is None:
+            ctx.count('%s:first-attempt-crash-not-reproduced' % flavour)
+            ctx.note('a worker died on %s %s on %s (%s build), rc %s, and 5 fresh runs%s passed: stderr %r' % (
+                t['algo'], json.dumps(t['extra'], sort_keys=True)[:200], t['graph']['name'], flavour, r.get('first_rc'),
+                (' + 1 on the bounds-checked build (%s)' % r['checked_rerun']) if r.get('checked_rerun') else '',
+                r.get('first_stderr')))
+        elif r.get('first_attempt') == 'timeout':
+            ctx.count('%s:first-attempt-timeout-not-reproduced' % flavour)
         if kind is not None:
             detail = {'worker_answer': {k: v for k, v in r.items() if k != 'calls'}, 'build': flavour,
                       'property': 'returns or raises a Python exception within the time limit; stays within its buffers'}
@@ -951,7 +1123,8 @@ def stream(ctx, flavour, quick, monitor):
     tasks = build_tasks(ctx, flavour, quick)
     limit = 6 if quick else 20
     t0 = time.time()
-    results = run_pool(root, tasks, limit, _nworkers(), monitor=monitor, tag=flavour[0])
+    results = run_pool(root, tasks, limit, _nworkers(), monitor=monitor, tag=flavour[0], known=known_oracle(),
+                       checked_root=checked_root_or_none if flavour == 'plain' else None)
     ctx.extra['stream_' + flavour] = {'tasks': len(tasks), 'wall_s': round(time.time() - t0, 1), 'limit_s': limit}
     judge(ctx, tasks, results, flavour)
     if monitor:
@@ -959,57 +1132,154 @@ def stream(ctx, flavour, quick, monitor):
     return tasks, results
 
 
-SCALING_ALGOS = KERNEL_ALGOS + ['Propagation', 'PageRank', 'Katz', 'Diffusion', 'Dirichlet', 'get_distances', 'is_bipartite',
-                                 'get_connected_components', 'Closeness', 'DiffusionClassifier', 'PageRankClassifier',
-                                 'NNClassifier', 'HITS', 'get_shortest_path']
-SCALING_SIZES = (500, 1000, 2000)
-SCALING_ABS_S = 20.0      # CPU seconds allowed on the largest size (sparse graph, average degree 4)
-SCALING_RATIO = 8.0       # allowed t(2n)/t(n), applied only when t(2n) is above SCALING_FLOOR_S
-SCALING_FLOOR_S = 1.0
+# ---- 'within time proportionate to the input': growth of the CPU time, per algorithm, against a declared class ---------
+# (review 2, H3: the first probe had a 1 s floor under which nothing was tested, a ratio that admitted cubic growth and
+#  stopped at 2000 nodes)
+# The sizes are 125 * 4^k.  Tested: the ratio t(4n)/t(n) of the CPU time of the two largest sizes run, whenever t(4n) is
+# measurable.  Allowed ratio for a factor 4 in size:
+#   'lin'  (n + m up to log factors)                     10   (exponent 1.66; measured on this tree 3.5 .. 7: n log n, caches)
+#   'quad' (n * m: one traversal per node, pairwise forces; iterative eigen-solvers, whose number of iterations is not a
+#           function of the size alone; break_cycles, which copies its path at every step: finding F27)
+#                                                        40   (exponent 2.66; measured 13 .. 22 for the n * m ones)
+# A quadratic 'lin' algorithm shows 14 .. 19 (the by-value vectors of finding F28 did), a cubic 'quad' one 64.
+SCALING_RATIO = {'lin': 10.0, 'quad': 40.0}
+SCALING_CLASS = {'Betweenness': 'quad', 'Closeness': 'quad', 'Spring': 'quad', 'ForceAtlas': 'quad',
+                 'Spectral': 'quad', 'SVD': 'quad', 'GSVD': 'quad', 'PCA': 'quad', 'break_cycles': 'quad'}
+# not probed: get_cycles (its output is exponential on these families); break_cycles on the directed family (finding F27,
+# exponential: it has its own witnesses)
+SCALING_ALGOS = [a for a in ALL_ALGOS if a not in ('get_cycles',)]
+SCALING_DIRECTED = ['Propagation', 'PropagationClustering', 'PageRank', 'Louvain', 'Leiden', 'Paris', 'KCenters', 'Katz',
+                    'get_distances', 'get_shortest_path', 'breadth_first_search', 'get_dag', 'get_dag_index', 'is_acyclic',
+                    'get_connected_components', 'Betweenness', 'Closeness', 'DiffusionClassifier', 'Diffusion', 'Dirichlet',
+                    'color_weisfeiler_lehman', 'HITS', 'LouvainHierarchy', 'count_triangles', 'get_core_decomposition',
+                    'SVD', 'Spectral']
+SCALING_MEASURABLE_S = 0.2      # the ratio is tested whenever the larger run of the pair takes at least this much CPU
+SCALING_TARGET_S = 0.4          # sizes grow (x4) until one run takes this much
+SCALING_START = 500
+SCALING_LIMIT_S = 60            # CPU seconds allowed for one run of the probe
 
 
-def sparse_connected(rng, n):
-    """ring + random chords: connected, about 2n edges (average degree 4), unit weights"""
-    es = set((i, (i + 1) % n) for i in range(n))
-    while len(es) < 2 * n:
-        i, j = rng.randrange(n), rng.randrange(n)
-        if i != j and (j, i) not in es:
-            es.add((i, j))
-    es = sorted(es)
-    return graphs.csr_from_edges(n, sorted(es + [(j, i) for (i, j) in es]))
+def scaling_nmax(ctx):
+    return 32000 if ctx.quick else 128000
 
 
-def scaling_probe(ctx, algos=None):
-    """'within time proportionate to the input' measured beyond toy sizes (review M5): CPU time of every algorithm that
-    enters a kernel on sparse connected graphs of 500, 1000, 2000 nodes; reported with its own kind 'scaling'."""
+def probe_one(w, algo, family, seed, nmax):
+    """Sizes 500, 2000, 8000, ... until a run takes SCALING_TARGET_S of CPU or the size reaches nmax (125 when the run on
+    500 nodes already takes that long); a ratio above the class is measured again (minimum of the two measurements of each
+    size) before it counts.  Returns (row {n: cpu}, failing (task, answer) or None)."""
+    row = {}
+
+    def task(n):
+        return {'id': 0, 'algo': algo, 'graph': {'gen': family, 'n': n, 'seed': seed, 'name': '%s%d' % (family, n), 'm': n},
+                'extra': {}, 'flavour': 'plain'}
+
+    def run(n):
+        r = w.run(task(n), SCALING_LIMIT_S)
+        if r.get('status') not in ('ok', 'exc'):
+            return (task(n), r)
+        if r.get('status') == 'exc':
+            row['exc'] = r.get('exc')
+        row[n] = r['cpu'] if n not in row else min(row[n], r['cpu'])
+        return row[n]
+    n = SCALING_START
+    x = run(n)
+    if isinstance(x, tuple):
+        return row, x
+    if x >= SCALING_TARGET_S:
+        pair = (n // 4, n)
+        y = run(n // 4)
+        if isinstance(y, tuple):
+            return row, y
+    else:
+        pair = None
+        while x < SCALING_TARGET_S and n * 4 <= nmax:
+            n *= 4
+            x = run(n)
+            if isinstance(x, tuple):
+                return row, x
+            pair = (n // 4, n)
+    if pair and row[pair[1]] >= SCALING_MEASURABLE_S and row[pair[0]] > 0 and \
+            row[pair[1]] / row[pair[0]] > SCALING_RATIO[SCALING_CLASS.get(algo, 'lin')]:
+        for m in pair:          # suspect: measure both sizes once more, keep the minima
+            y = run(m)
+            if isinstance(y, tuple):
+                return row, y
+        row['remeasured'] = True
+    return row, None
+
+
+def scaling_probe(ctx, algos=None, families=None):
+    """CPU time of every stream algorithm on sparse graphs (average degree 4) of growing size: an undirected family (ring +
+    chords) for all of them, a directed family (directed ring + random arcs) for those that treat directed inputs in their
+    own way.  A ratio t(2n)/t(n) above the declared class of the algorithm, or a run over the CPU limit, is a failing
+    input of kind 'scaling' / 'timeout'."""
     rng = ctx.rng
-    gs = {n: gdict('sparse%d' % n, sparse_connected(rng, n)) for n in SCALING_SIZES}
-    tasks = []
+    seed = rng.randrange(10 ** 6)
+    jobs = []
     for algo in (algos or SCALING_ALGOS):
-        for n in SCALING_SIZES:
-            tasks.append({'id': len(tasks), 'algo': algo, 'graph': gs[n], 'extra': {}, 'flavour': 'plain'})
-    res = run_pool(ctx.overlay_root, tasks, 90, 6, tag='z')
-    judge(ctx, tasks, res, 'plain')
-    table = {}
-    for t in tasks:
-        r = res[t['id']]
-        table.setdefault(t['algo'], {})[t['graph']['n']] = r.get('cpu') if r.get('status') in ('ok', 'exc') else None
-    ctx.extra['scaling_cpu_s'] = table
-    for algo, row in table.items():
-        ts = [row.get(n) for n in SCALING_SIZES]
-        if any(x is None for x in ts):
-            continue            # timeout / crash: already judged
+        for fam in (families or ['ring_chords', 'diring_chords']):
+            if fam == 'diring_chords' and algos is None and algo not in SCALING_DIRECTED:
+                continue
+            if fam == 'diring_chords' and algo == 'break_cycles':
+                continue
+            if ctx.quick and algos is None and fam == 'diring_chords' and rng.random() < 0.5:
+                continue            # quick tier: half of the directed probes per run (the seed chooses)
+            jobs.append((algo, fam))
+    nmax = scaling_nmax(ctx)
+    q = _queue.Queue()
+    for j in jobs:
+        q.put(j)
+    table, fails, lock = {}, [], threading.Lock()
+
+    def loop(k):
+        w = Worker(ctx.overlay_root, 'z%d' % k, False, threads=1)
+        try:
+            while True:
+                try:
+                    algo, fam = q.get_nowait()
+                except _queue.Empty:
+                    return
+                row, bad = probe_one(w, algo, fam, seed, nmax)
+                with lock:
+                    table['%s/%s' % (algo, fam)] = row
+                    if bad is not None:
+                        fails.append(bad)
+        finally:
+            w.stop()
+    ths = [threading.Thread(target=loop, args=(k,)) for k in range(8)]
+    for th in ths:
+        th.start()
+    for th in ths:
+        th.join()
+    ctx.extra.setdefault('scaling_cpu_s', {}).update({k: {str(n): v for n, v in row.items()} for k, row in table.items()})
+    if fails:
+        ts = [dict(t, id=i) for i, (t, r) in enumerate(fails)]
+        judge(ctx, ts, {i: dict(r, id=i, confirmed=True) for i, (t, r) in enumerate(fails)}, 'plain')
+    tested = 0
+    for key, row in sorted(table.items()):
+        algo, fam = key.split('/')
+        sizes = sorted(n for n in row if isinstance(n, int) and row[n] is not None)
+        ctx.case(('scaling', key, tuple(sizes)), True)
         why = None
-        if ts[-1] > SCALING_ABS_S:
-            why = 'cpu %.1f s on %d nodes' % (ts[-1], SCALING_SIZES[-1])
-        for a, b, n in zip(ts, ts[1:], SCALING_SIZES[1:]):
-            if b > SCALING_FLOOR_S and a > 0 and b / a > SCALING_RATIO:
-                why = 'cpu time x%.1f from %d to %d nodes (%.2f s -> %.2f s)' % (b / a, n // 2, n, a, b)
+        if len(sizes) >= 2 and row[sizes[-1]] >= SCALING_MEASURABLE_S and row[sizes[-2]] > 0:
+            lo, big = sizes[-2], sizes[-1]
+            tested += 1
+            ratio = row[big] / row[lo]
+            cls = SCALING_CLASS.get(algo, 'lin')
+            ctx.count('scaling:ratio-tested')
+            if ratio > SCALING_RATIO[cls] * (big / lo / 4.0):
+                why = 'cpu time x%.1f from %d to %d nodes (%.2f s -> %.2f s, measured twice), allowed x%.0f (class %s)' % (
+                    ratio, lo, big, row[lo], row[big], SCALING_RATIO[cls], cls)
         ctx.count('scaling:' + ('ok' if why is None else 'SUPERLINEAR'))
         if why is not None:
-            t = [x for x in tasks if x['algo'] == algo][-1]
-            ctx.spec_fail(task_sig(t, 'scaling'), {'task': {k: t[k] for k in ('algo', 'graph', 'extra', 'flavour')}},
-                          {'what': 'time not proportionate to the input', 'why': why, 'cpu_s': row})
+            t = {'algo': algo, 'graph': {'gen': fam, 'n': big, 'seed': seed, 'name': '%s%d' % (fam, big), 'm': big},
+                 'extra': {}, 'flavour': 'plain'}
+            if known_oracle()(t, 'scaling'):
+                ctx.count('scaling:known')
+            ctx.spec_fail(task_sig(t, 'scaling'), {'task': t},
+                          {'what': 'time not proportionate to the input', 'why': why,
+                           'cpu_s': {str(n): row[n] for n in sizes}})
+    ctx.extra['scaling_pairs_tested'] = ctx.extra.get('scaling_pairs_tested', 0) + tested
 
 
 def run_corpus(ctx):
@@ -1028,7 +1298,7 @@ def run_corpus(ctx):
         if not ts:
             continue
         root = ctx.overlay_root if flavour == 'plain' else overlay.sync('checked')[0]
-        res = run_pool(root, ts, 8, min(6, len(ts)), tag='c' + flavour[0])
+        res = run_pool(root, ts, 8, min(6, len(ts)), tag='c' + flavour[0], known=known_oracle())
         judge(ctx, ts, res, flavour)
         ctx.count('corpus:%s' % flavour, len(ts))
 
@@ -1060,8 +1330,14 @@ def run(ctx):
     timed('stream_plain', stream, ctx, 'plain', ctx.quick, monitor=True)
     timed('stream_checked', stream, ctx, 'checked', ctx.quick, monitor=False)
     ctx.extra['phases_s'] = phases
+    raise_if_starved()
+
+
+def raise_if_starved():
+    """A worker that could not use its CPU allowance within WALL_FACTOR x the limit: no verdict on that task (review 2, L4:
+    also in replay and search)."""
     if _STATE.get('starved'):
-        raise ToolFailure('workers were starved of CPU (machine too loaded for the wall-clock limit): %s' % _STATE['starved'][:3])
+        raise ToolFailure('workers were starved of CPU (or blocked without using CPU): %s' % _STATE['starved'][:3])
 
 
 def _as_csr(g):
@@ -1079,7 +1355,7 @@ def core_cases(ctx, graphs_):
             continue
         tasks.append({'id': len(tasks), 'algo': 'get_core_decomposition', 'graph': g, 'extra': {'want_value': True},
                       'flavour': 'plain'})
-    res = run_pool(ctx.overlay_root, tasks, 10, _nworkers(), tag='k')
+    res = run_pool(ctx.overlay_root, tasks, 10, _nworkers(), tag='k', known=known_oracle())
     judge(ctx, tasks, res, 'plain')
     cases = []
     for t in tasks:
@@ -1117,7 +1393,7 @@ def vote_cases(ctx, graphs_, fixed=None):
             rng.shuffle(index)
             tasks.append({'id': len(tasks), 'algo': 'vote_update_kernel', 'graph': g2,
                           'extra': {'labels_vec': labels, 'index': index}, 'flavour': 'plain'})
-    res = run_pool(ctx.overlay_root, tasks, 10, _nworkers(), tag='v')
+    res = run_pool(ctx.overlay_root, tasks, 10, _nworkers(), tag='v', known=known_oracle())
     judge(ctx, tasks, res, 'plain')
     cases = []
     for t in tasks:
@@ -1177,8 +1453,9 @@ def search(ctx, pending):
     tasks = [t for t in build_tasks(ctx, 'checked', False) if t['algo'] in algos]
     for i, t in enumerate(tasks):
         t['id'] = i
-    res = run_pool(root, tasks, 10, _nworkers(), tag='s')
+    res = run_pool(root, tasks, 10, _nworkers(), tag='s', known=known_oracle())
     judge(sub, tasks, res, 'checked')
+    raise_if_starved()
     found = sub.found(limit=8)
     # one report per distinct signature
     seen, out = set(), []
@@ -1219,7 +1496,9 @@ def replay(ctx, payload):
         return
     sig = payload.get('sig') or {}
     if sig.get('kind') == 'scaling':
-        scaling_probe(ctx, algos=[t['algo']])
+        fam = (t.get('graph') or {}).get('gen') or sig.get('family')
+        scaling_probe(ctx, algos=[t['algo']], families=[fam] if fam else None)
+        raise_if_starved()
         return
     if sig.get('kind') == 'model':
         # a disagreement between a checked hand model and the kernel: compare again on the recorded input
@@ -1228,11 +1507,14 @@ def replay(ctx, payload):
             _evaluate(ctx, core_cases(ctx, [g]))
         else:
             _evaluate(ctx, vote_cases(ctx, [g], fixed=t.get('extra')))
+        raise_if_starved()
         return
     t = dict(t, id=0)
     flavour = t.get('flavour', 'plain')
     root = ctx.overlay_root if flavour == 'plain' else overlay.sync('checked')[0]
-    res = run_pool(root, [t], 10, 1, monitor=(flavour == 'plain'), tag='r')
+    limit = SCALING_LIMIT_S if (t.get('graph') or {}).get('gen') else 10
+    res = run_pool(root, [t], limit, 1, monitor=(flavour == 'plain' and limit == 10), tag='r', known=known_oracle())
     judge(ctx, [t], res, flavour)
-    if flavour == 'plain':
+    if flavour == 'plain' and limit == 10:
         contract_lines(ctx, [t], res)
+    raise_if_starved()
